@@ -112,7 +112,12 @@ Theorem C15_rename_all_or_nothing :
   match r with
   | Raise _ => s' = s
   | Ok _ =>
-      (forall v n, In (v, n) (combine vs ns) -> r_vn s' v = Some n) /      (forall v, ~ In v vs -> r_vn s' v = r_vn s v) /      RInv s' /      (forall g u, (exists k, In (k, u) (get_dict g (r_inits s'))) <-> (exists k, In (k, u) (get_dict g (r_inits s)))) /      (forall u, r_isinit s' u = r_isinit s u /\ r_vgraph s' u = r_vgraph s u) /      same_but s s'
+      (forall v n, In (v, n) (combine vs ns) -> r_vn s' v = Some n) /\
+      (forall v, ~ In v vs -> r_vn s' v = r_vn s v) /\
+      RInv s' /\
+      (forall g u, (exists k, In (k, u) (get_dict g (r_inits s'))) <-> (exists k, In (k, u) (get_dict g (r_inits s)))) /\
+      (forall u, r_isinit s' u = r_isinit s u /\ r_vgraph s' u = r_vgraph s u) /\
+      same_but s s'
   end.
 Proof. exact rename_all_or_nothing. Qed.
 Print Assumptions C15_rename_all_or_nothing.
